@@ -7,7 +7,7 @@
 From Coq Require Import Field Ring Arith Lia List Bool String.
 From QV.Core Require Import OF Sums Mat Cplx.
 From QV.Model Require Import QObj C18_Lindblad C18_PySem.
-From QV.Proofs Require Import C18_Algebra C18_Misc.
+From QV.Proofs Require Import C18_Algebra C18_Misc C18_Verdict.
 From QVGen Require Import Gen_c18.
 Import ListNotations.
 
@@ -248,6 +248,36 @@ Proof. split; [|reflexivity]. intros i j. unfold gen_proj_ineq_kmat, proj_ineq_k
   pose proof (fold_clip (fun x => if fltb F x (c0 F) then c0 F else x) (fun x => rltb F x (c0 F)) (c0 F) (fun x => eq_refl) l []) as E.
   cbn [List.length app] in E. rewrite E. reflexivity. Qed.
 
+(* ---------------------------------------------------------------- the constructors generate_hs_from_hjk / _hk / _h / _k: the computational-basis
+   generator they hand to convert_hs (then _truncate_hs) is the model's lcb_hjk / lcb_hk / lcb_h / lcb_k, built from -1j (H (x) I - I (x) conj H),
+   J (x) I + I (x) conj J and the two table helpers; the _check_*_mat calls come in the model's order (h, j, k) *)
+Lemma mi_eq : copp Cx (ci F) = mi F. Proof. unfold ci, mi. apply cplx_eq; cbn; ring. Qed.
+Lemma gen_h_part_eq d (H : cmat) s t : gen_h_part F d H s t = h_part d H s t.
+Proof. unfold gen_h_part, h_part. cbv zeta. unfold mscale, cI. now rewrite mi_eq. Qed.
+Lemma gen_j_part_eq d (J : cmat) s t : gen_j_part F d J s t = j_part d J s t.
+Proof. reflexivity. Qed.
+Theorem C18_gen_constructors (d : nat) (B : nat -> cmat) (H J K : cmat) : (0 < d)%nat -> forall s t, (t < d * d)%nat ->
+  gen_lcb_hjk F d (tab_j d B) (tab_k d B) H J K s t = lcb_hjk d B H J K s t /\
+  gen_lcb_hk F d (tab_j d B) (tab_k d B) H K s t = lcb_hk d B H K s t /\
+  gen_lcb_h F d (tab_j d B) (tab_k d B) H s t = lcb_h d H s t /\
+  gen_lcb_k F d (tab_j d B) (tab_k d B) K s t = lcb_k d B K s t /\
+  gen_lcb_hjk_checks = [("_check_h_mat"%string, "h_mat"%string); ("_check_j_mat"%string, "j_mat"%string); ("_check_k_mat"%string, "k_mat"%string)] /\
+  gen_lcb_hk_checks = [("_check_h_mat"%string, "h_mat"%string); ("_check_k_mat"%string, "k_mat"%string)] /\
+  gen_lcb_h_checks = [("_check_h_mat"%string, "h_mat"%string)] /\ gen_lcb_k_checks = [("_check_k_mat"%string, "k_mat"%string)].
+Proof. intros Hd s t Ht.
+  assert (Hm : (t mod d < d)%nat) by (apply Nat.mod_upper_bound; lia).
+  assert (Hq : (t / d < d)%nat) by (apply Nat.div_lt_upper_bound; lia).
+  assert (Ek : gen_k_part_sparse F d (tab_k d B) K s t = k_part d B K s t).
+  { destruct (C18_gen_sparse_helpers d B K) as [_ [E _]]. rewrite E. now apply k_part_sparse_eq. }
+  assert (Ej : j_part d (gen_j_of_k_sparse F d (tab_j d B) K) s t = j_part d (j_of_k d B K) s t).
+  { destruct (C18_gen_sparse_helpers d B K) as [E _]. unfold j_part, madd, kron, cconj.
+    rewrite !E, !(j_of_k_sparse_eq F d B K) by assumption. reflexivity. }
+  repeat split.
+  - unfold gen_lcb_hjk, lcb_hjk. cbv zeta. unfold madd. rewrite ?gen_h_part_eq, ?gen_j_part_eq, ?Ek. ring.
+  - unfold gen_lcb_hk, lcb_hk. cbv zeta. unfold madd. rewrite ?gen_h_part_eq, ?gen_j_part_eq, ?Ek, ?Ej. ring.
+  - unfold gen_lcb_h, lcb_h. cbv zeta. apply gen_h_part_eq.
+  - unfold gen_lcb_k, lcb_k. cbv zeta. unfold madd. rewrite ?gen_j_part_eq, ?Ek, ?Ej. ring. Qed.
+
 (* which attribute is made from which list by which final operation *)
 Theorem C18_gen_tab_wiring : gen_tab_wiring =
   [("_basisconjugate_basis_sparse"%string, (0%nat, "conjugate"%string)); ("_basis_basisconjugate_T_sparse"%string, (0%nat, "T"%string));
@@ -264,4 +294,5 @@ Print Assumptions C18_gen_tab_1.
 Print Assumptions C18_gen_tab_2.
 Print Assumptions C18_gen_sparse_helpers.
 Print Assumptions C18_gen_proj_ineq.
+Print Assumptions C18_gen_constructors.
 Print Assumptions C18_gen_tab_wiring.
